@@ -39,21 +39,22 @@ type contract struct {
 }
 
 type genState struct {
-	prices       []*big.Int // gas price per client: pairwise distinct, so that the worker's price heap never sees a tie (ties are broken by map order, types/transaction.go:333)
-	contracts    []*contract
-	created      int
-	slashes      int
-	starve       int // index into act.vals of a validator that is never put first in the proposer order (-1 none)
-	curVotes     []*chainkit.SignedVote
-	curCtx       *chainkit.Ctx
-	prevVotes    []*chainkit.SignedVote
-	prevCtx      *chainkit.Ctx
-	prevHash     common.Hash
-	headSt       *state.StateDB
-	headNum      uint64
-	altCB        int
-	evidenceFor  uint64 // round for which a genuine double-sign evidence was last posted to the main builder
-	riskyPending int    // risky actions submitted in the running period (see sim.risky)
+	prices         []*big.Int // gas price per client: pairwise distinct, so that the worker's price heap never sees a tie (ties are broken by map order, types/transaction.go:333)
+	contracts      []*contract
+	created        int
+	slashes        int
+	starve         int // index into act.vals of a validator that is never put first in the proposer order (-1 none)
+	curVotes       []*chainkit.SignedVote
+	curCtx         *chainkit.Ctx
+	prevVotes      []*chainkit.SignedVote
+	prevCtx        *chainkit.Ctx
+	prevHash       common.Hash
+	headSt         *state.StateDB
+	headNum        uint64
+	altCB          int
+	evidenceFor    uint64         // round for which a genuine double-sign evidence was last posted to the main builder
+	evidenceTarget common.Address // the validator that evidence is against
+	riskyPending   int            // risky actions submitted in the running period (see sim.risky)
 }
 
 func newGenState(c *kit.Chooser, a *actors) *genState {
@@ -896,6 +897,7 @@ func (s *sim) postEvidence() {
 		s.g.slashes++
 		if s.b == s.mainB {
 			s.g.evidenceFor = round
+			s.g.evidenceTarget = sv.Key.Addr
 		}
 	}
 	s.r.Fault("evidence-" + []string{"genuine", "late", "forged", "wrong-index", "twice", "future", "two-validators"}[variant])
